@@ -31,7 +31,7 @@
     (v) shape/frame lemmas of the other operations. *)
 From DV Require Import Model.Base Model.NameCheck Model.Parser Model.Header Model.Readers Model.Uncompress
   Model.Mutate Model.Compress Model.Renamer Spec.PacketSpec Spec.RecordSpec Spec.PlainSpec Proofs.Hoare Proofs.HeaderBits Proofs.InsertLemmas Proofs.EdnsPlain Proofs.WalkSkip
-  Proofs.PlainWf Proofs.ViewAfter Proofs.InsertSpec Proofs.HeaderInv Proofs.CursorHist.
+  Proofs.PlainWf Proofs.ViewAfter Proofs.InsertSpec Proofs.HeaderInv Proofs.CursorHist Proofs.DecompressFirst.
 
 Theorem C08_decompression_keeps_edns_summary : forall p v q v',
   bytes_ok p -> parse p = Ok v -> uncompress p = Ok q -> parse q = Ok v' ->
@@ -166,6 +166,22 @@ Theorem C08_histories_from_parse_with_cursor_total : forall p v it o ops s1, byt
   exists s', run_hops3_tol ops s1 = (s', Ok tt) /\ dinv (fst s') /\ snd s' = it /\ is_response (pp_packet (fst s')).
 Proof. exact fresh_history3_total. Qed.
 Print Assumptions C08_histories_from_parse_with_cursor_total.
+
+(** the decompress-and-translate prologue of delete and set_raw_name on a packet as the parser returned it, cursor on any record:
+    it succeeds, the object satisfies [dinv] (bytes = the decompression of the packet), the cursor stands on the record at the same
+    position of the list of records, which is the same record (labels, type, class, TTL, data) *)
+Theorem C08_cursor_decompress : forall p v it qls qt lxa lxn lxr l1 r x l2,
+  bytes_ok p -> parse p = Ok v -> reading p qls qt lxa lxn lxr -> lxa ++ lxn ++ lxr = l1 ++ (r, x) :: l2 ->
+  it_section it <> SQuestion ->
+  exists dv lA' lN' lR' l1' r' l2',
+    m_cursor_decompress (rv_off r) (v, it) =
+      ((dv, it_set (it_set it (Some (rv_off r')) (it_offset_next it) (it_name_end it)) (Some (rv_off r')) (rv_name_end r' + 10 + rv_rdlen r') (rv_name_end r')), Ok tt) /\
+    dinv dv /\ uncompress p = Ok (pp_packet dv) /\ (is_response p -> is_response (pp_packet dv)) /\
+    reading (pp_packet dv) qls qt lA' lN' lR' /\ lA' ++ lN' ++ lR' = l1' ++ (r', x) :: l2' /\ length l1' = length l1 /\
+    length lA' = length lxa /\ length lN' = length lxn /\ length lR' = length lxr /\
+    Forall2 same_rec (lxa ++ lxn ++ lxr) (lA' ++ lN' ++ lR').
+Proof. exact cursor_decompress_fresh. Qed.
+Print Assumptions C08_cursor_decompress.
 
 Example C08_tolerant_cursor_run_means :
   (forall o ops s, run_hops3_tol (o :: ops) s =
